@@ -44,3 +44,38 @@ package sshswarm
 //@   trusted
 //@   pure
 //@   ensures len(ret) >= 1
+
+// Close closes both hubs whatever the listener's Close returns
+//@ func (*Swarm).Close
+//@   noframe
+//@   requires s != nil && inv(s.tellHub) && inv(s.askHub)
+//@   ensures [hubsclosed] closed(old(s.tellHub.closed)) && closed(old(s.askHub.closed))
+//@   fnspec Close:
+//@     preserves s.tellHub.closed, s.askHub.closed, closed(s.tellHub.closed), closed(s.askHub.closed)
+
+// the serving side answers "ok" only with what a handler produced: a request the ask hub refused
+// (closed, cancelled) or a negative handler result is answered with ok=false
+//@ func (*Conn).loop
+//@   noframe
+//@   requires c != nil && c.swarm != nil && inv(c.swarm.askHub) && inv(c.swarm.tellHub)
+//@   ghostvar answered = false
+//@   ghostvar n = 0
+//@   after call (*AskHub).Deliver:
+//@     set answered = res1 == nil && res0 >= 0
+//@     set n = res0
+//@     preserves c.swarm
+//@     assume inv(c.swarm.tellHub)
+//@   after call (*TellHub).Deliver:
+//@     preserves c.swarm
+//@     assume inv(c.swarm.askHub)
+//@   before call (*Request).Reply:
+//@     assert [answered] arg1 ==> ghost(answered)
+//@     assert [whole] arg1 ==> len(arg2) == ghost(n)
+//@   fnspec Reply:
+//@     ensures c.swarm != nil && inv(c.swarm.askHub) && inv(c.swarm.tellHub)
+//@     preserves c.swarm
+//@   fnspec Reject:
+//@     ensures c.swarm != nil && inv(c.swarm.askHub) && inv(c.swarm.tellHub)
+//@     preserves c.swarm
+//@   loop 0:
+//@     invariant c.swarm == old(c.swarm) && inv(c.swarm.askHub) && inv(c.swarm.tellHub)
